@@ -22,7 +22,9 @@ PROP = {
                   "under / above patterns, case variants, A/AAAA/other types) are looked up through "
                   "DNSFilter.CheckHost in up to three orders of the table (built from the configuration, "
                   "through POST /control/rewrite/add, by editing placeholder entries of other kinds through PUT "
-                  "/control/rewrite/update, and with junk entries removed through POST /control/rewrite/delete) and compared with a reference resolver: exact equality "
+                  "/control/rewrite/update, with junk entries removed through POST /control/rewrite/delete, and from a configuration that also holds inert "
+                  "entries - empty ones, ones lacking the domain or the answer, unrelated ones - before, between and after the "
+                  "wanted entries) and compared with a reference resolver: exact equality "
                   "where the table is unambiguous for the question, the stated validity predicates otherwise; "
                   "every order must give the same result; each call runs under a watchdog (10 s of CPU time of the "
                   "process) and a panic trap. "
